@@ -48,7 +48,7 @@ class Tree:
                 s.mkdir(path)
 
 
-def random_tree(rng, dirs, name, dsfx, postfixes, tagger, p_main=0.6, names=DROPIN_NAMES, owner=None, decoys=None):
+def random_tree(rng, dirs, name, dsfx, postfixes, tagger, p_main=0.6, names=DROPIN_NAMES, owner=None, decoys=None, links=True):
     """dirs: layer directories (lowest first); main file <dir>/<name><dsfx>; drop-ins in <dir>/<name><postfix>/;
     decoys: further drop-in directory postfixes which get files but are not to be consulted"""
     t = Tree()
@@ -83,6 +83,15 @@ def random_tree(rng, dirs, name, dsfx, postfixes, tagger, p_main=0.6, names=DROP
             for nm in rng.sample(names, k):
                 if nm == b"sub.conf" and rng.random() < 0.5:
                     t.files.append((dd + b"/" + nm, "dir", None, None, None))
+                elif links and rng.random() < 0.1:
+                    # a drop-in that is a symbolic link: to /dev/null (switches the name off) or to a file with another
+                    # name somewhere else; it takes part under its own name
+                    if rng.random() < 0.5:
+                        t.files.append((dd + b"/" + nm, "link", b"/dev/null", uid, gid))
+                    else:
+                        tag = tagger()
+                        t.files.append((b"/store/" + tag + b".data", "file", content(rng, tag), uid, gid))
+                        t.files.append((dd + b"/" + nm, "link", b"/store/" + tag + b".data", uid, gid))
                 else:
                     t.files.append((dd + b"/" + nm, "file", content(rng, tagger()), uid, gid))
     return t
